@@ -10,9 +10,17 @@ pub mod h_comb2 {
 pub mod h_iter {
     include!(concat!(env!("CHUMSKY_VERIF_DIR"), "/h_iter.rs"));
 }
+pub mod h_top {
+    include!(concat!(env!("CHUMSKY_VERIF_DIR"), "/h_top.rs"));
+}
+pub mod h_top2 {
+    include!(concat!(env!("CHUMSKY_VERIF_DIR"), "/h_top2.rs"));
+}
 pub fn register_all(r: &mut Vec<(&'static str, fn())>) {
     h_comb::register(r);
     h_prim::register(r);
     h_comb2::register(r);
     h_iter::register(r);
+    h_top::register(r);
+    h_top2::register(r);
 }
